@@ -21,6 +21,16 @@ def gen(r, n):
     scs.append(dict(u=150, period=1, ta=2, grace=1, leak=0.7, dur=6, on_term="ignore", sigs=[], as_script=True))
     scs.append(dict(u=150, period=1, ta=None, grace=1, leak=0.7, dur=2.5, on_term="exit", sigs=[], as_script=True))
     scs.append(dict(u=150, period=2, ta=1, grace=0, leak=0.7, dur=4.5, on_term="ignore", sigs=[], as_script=True))
+    # stop / continue in the middle of a period: the deadline is in running time, so termination comes
+    # no earlier than terminate-after full periods of it (and the remembered period survives the resume)
+    scs.append(dict(u=150, period=2, ta=2, grace=1, leak=0.7, dur=7.5, on_term="exit",
+                    sigs=[(1, "TSTP"), (3, "CONT")]))
+    scs.append(dict(u=150, period=1, ta=3, grace=0, leak=0.7, dur=6.5, on_term="ignore",
+                    sigs=[(0.5, "TSTP"), (1.5, "CONT"), (2, "TSTP"), (3, "CONT")]))
+    # terminated at the deadline, then exits with status 0 within the grace period: still a timeout
+    scs.append(dict(u=150, period=1, ta=2, grace=2, leak=0.7, dur=6, on_term=("late_ok", 0.5), sigs=[]))
+    scs.append(dict(u=150, period=1, ta=1, grace=2, leak=0.7, dur=6, on_term=("late_ok", 0.5), sigs=[],
+                    as_script=True))
     while len(scs) < n:
         period = r.choice([1, 2])
         ta = r.choice([None, 1, 2, 3])
@@ -29,12 +39,16 @@ def gen(r, n):
         dur = k * period + r.choice([0.5, period - 0.5] if period > 1 else [0.5])
         if dur > 7:
             dur = 6.5
-        on_term = r.choice(["exit", "ignore", ("late", r.choice([0.5, 1.5]))])
+        on_term = r.choice(["exit", "ignore", ("late", r.choice([0.5, 1.5])), ("late_ok", r.choice([0.5, 1.5]))])
         if isinstance(on_term, tuple) and abs(on_term[1] - grace) < 0.45:
             on_term = "ignore"
         sc = dict(u=150, period=period, ta=ta, grace=grace, leak=0.7, dur=dur, on_term=on_term, sigs=[])
         if r.random() < 0.3:
             sc["child"] = True
+        elif ta and r.random() < 0.35:
+            t0 = r.choice([0, 1, 2]) + 0.5
+            if t0 + 0.45 < min(dur, ta * period):
+                sc["sigs"] = [(t0, "TSTP"), (t0 + r.choice([1, 2]), "CONT")]
         scs.append(sc)
     return scs
 
